@@ -3,7 +3,7 @@
    (gen recognises the shape and compares the two helpers with their expected source text).  Definitions only. *)
 From Coq Require Import List NArith Bool String.
 Import ListNotations.
-From BM Require Import Bytes Utf8 Strings Regex.
+From BM Require Import Bytes Utf8 Strings Regex RecCheck.
 
 (* strings.Split(value, ","), each part TrimSpace'd and lower-cased *)
 Definition split_values (v : bytes) : list bytes := map (fun x => to_lower (trim_space x)) (split v [44%N]).
@@ -24,7 +24,10 @@ Inductive hcond :=
 | CRx (nm : string)               (* R.MatchString(value) *)
 | CCall (fn : string)             (* OtherHandler(value), defined earlier in the list *)
 | CIn (kw : list bytes)           (* in(splitValues(value), kw) *)
-| CInSpace (kw : list bytes).     (* in(strings.Split(value, " "), kw) *)
+| CInSpace (kw : list bytes)      (* in(strings.Split(value, " "), kw) *)
+| CExact (kw : list bytes)        (* in([]string{value}, kw) *)
+| CRec (sep : N) (maxlen : option nat) (fns : list string).
+                                  (* [if len(splitVals) > maxlen { return false }] recursiveCheck(strings.Split(value, sep), fns) *)
 
 Definition henv := list (string * (bytes -> bool)).
 Definition call_env (env : henv) (fn : string) (v : bytes) : bool :=
@@ -35,6 +38,11 @@ Definition eval_cond (acceptors : list (string * re)) (env : henv) (c : hcond) (
   | CCall fn => call_env env fn v
   | CIn kw => kw_handler kw v
   | CInSpace kw => in_list (split v [32%N]) kw
+  | CExact kw => mem v kw
+  | CRec sep mx fns =>
+    let parts := split v [sep] in
+    (match mx with Some k => Nat.leb (List.length parts) k | None => true end) &&
+    recursive_check parts (map (call_env env) fns)
   end.
 Definition eval_def (acceptors : list (string * re)) (env : henv) (d : list hcond) (v : bytes) : bool :=
   existsb (fun c => eval_cond acceptors env c v) d.
@@ -48,5 +56,36 @@ Fixpoint calls_resolved (defs : list (string * list hcond)) (seen : list string)
   match defs with
   | [] => true
   | (n, d) :: rest =>
-    forallb (fun c => match c with CCall fn => existsb (String.eqb fn) seen | _ => true end) d && calls_resolved rest (n :: seen)
+    forallb (fun c => match c with
+                      | CCall fn => existsb (String.eqb fn) seen
+                      | CRec _ _ fns => forallb (fun fn => existsb (String.eqb fn) seen) fns
+                      | _ => true
+                      end) d && calls_resolved rest (n :: seen)
+  end.
+
+(* the definitions that can be proved: a recursiveCheck may only use sub-handlers already known to accept nothing but
+   "clean" values (no marked character); rxclean lists the acceptor regexps with that property.  Returns the admitted
+   definitions and the names of the clean ones. *)
+Definition cond_clean (rxclean clset : list string) (c : hcond) : bool :=
+  match c with
+  | CRx nm => existsb (String.eqb nm) rxclean
+  | CCall fn => existsb (String.eqb fn) clset
+  | CIn _ | CInSpace _ | CExact _ => true
+  | CRec _ _ fns => forallb (fun fn => existsb (String.eqb fn) clset) fns
+  end.
+Definition cond_admissible (kept clset : list string) (c : hcond) : bool :=
+  match c with
+  | CCall fn => existsb (String.eqb fn) kept
+  | CRec _ _ fns => forallb (fun fn => existsb (String.eqb fn) clset) fns
+  | _ => true
+  end.
+Fixpoint keep_defs (rxclean : list string) (defs : list (string * list hcond)) (kept clset : list string)
+  : list (string * list hcond) * list string :=
+  match defs with
+  | [] => ([], clset)
+  | (n, d) :: rest =>
+    if forallb (cond_admissible kept clset) d && negb (existsb (String.eqb n) kept) then
+      let clset' := if forallb (cond_clean rxclean clset) d then n :: clset else clset in
+      let (l, cs) := keep_defs rxclean rest (n :: kept) clset' in ((n, d) :: l, cs)
+    else keep_defs rxclean rest kept clset
   end.
